@@ -16,6 +16,10 @@ import (
 	"github.com/ozanh/ugo/stdlib"
 )
 
+// maxStringLen is the maximum length of a string created from a size
+// argument, larger sizes are reported as errors.
+const maxStringLen = 1<<31 - 1
+
 // Module represents time module.
 var Module = map[string]ugo.Object{
 	// ugo:doc
@@ -241,11 +245,11 @@ var Module = map[string]ugo.Object{
 	// Returns a new string consisting of count copies of the string s.
 	//
 	// - If count is a negative int, it returns empty string.
-	// - If (len(s) * count) overflows, it panics.
+	// - If (len(s) * count) is too large, it returns an error.
 	"Repeat": &ugo.Function{
 		Name:    "Repeat",
-		Value:   stdlib.FuncPsiRO(repeatFunc),
-		ValueEx: stdlib.FuncPsiROEx(repeatFunc),
+		Value:   stdlib.FuncPsiROe(repeatFunc),
+		ValueEx: stdlib.FuncPsiROeEx(repeatFunc),
 	},
 	// ugo:doc
 	// Replace(s string, old string, new string[, n int]) -> string
@@ -569,10 +573,14 @@ func pad(c ugo.Call, left bool) (ugo.Object, error) {
 		return ugo.Undefined,
 			ugo.NewArgumentTypeError("2nd", "int", c.Get(1).TypeName())
 	}
-	diff := padLen - len(s)
-	if diff <= 0 {
+	if padLen <= len(s) {
 		return ugo.String(s), nil
 	}
+	if padLen > maxStringLen {
+		return ugo.Undefined, ugo.NewArgumentTypeError(
+			"2nd", "int within size limit", "too large int")
+	}
+	diff := padLen - len(s)
 	padWith := " "
 	if size > 2 {
 		if padWith = c.Get(2).String(); len(padWith) == 0 {
@@ -595,12 +603,17 @@ func pad(c ugo.Call, left bool) (ugo.Object, error) {
 	return ugo.String(sb.String()), nil
 }
 
-func repeatFunc(s string, count int) ugo.Object {
+func repeatFunc(s string, count int) (ugo.Object, error) {
 	// if n is negative strings.Repeat function panics
 	if count < 0 {
-		return ugo.String("")
+		return ugo.String(""), nil
 	}
-	return ugo.String(strings.Repeat(s, count))
+	// if the output length overflows strings.Repeat function panics
+	if len(s) > 0 && count > maxStringLen/len(s) {
+		return ugo.Undefined, ugo.NewArgumentTypeError(
+			"2nd", "int within size limit", "too large int")
+	}
+	return ugo.String(strings.Repeat(s, count)), nil
 }
 
 func replaceFunc(c ugo.Call) (ugo.Object, error) {
